@@ -8,6 +8,8 @@ CONSTANTS
   Lifecycle = "separate"
   SecondCheck = TRUE
   Filter = TRUE
+  MaxFail = 50
+  GiveBack = FALSE
 CONSTRAINT Hwm
-INVARIANTS AtMostOnce NoStaleInvoke QueueBound
+INVARIANTS SeqnoUnique AtMostOnce NoStaleInvoke QueueBound
 POSTCONDITION Accepted
